@@ -40,7 +40,8 @@ CLAIMED = {
              'equals the documented run (exact result reduced mod 2^n at each step, shift amounts reduced mod the width, panic only for a zero divisor) and is identical '
              'under both build profiles; built on the C01/C02/C06/C07 theorems. Correspondence: programs of 1..12 steps over every impl variant (by value / by reference / '
              'assigning, 12 shift-amount types, integer right-hand sides, sum/product) in both profiles; Wrapping::from_num (fixed, 12 integer types, bool, f32/f64), Wrapping::to_num and '
-             'Wrapping::from_str / from_str_binary/_octal/_hex are exercised through their own entry points and answered by the wrapping forms of the C04/C05/C08 models (proved there).',
+             'Wrapping::from_str / from_str_binary/_octal/_hex are exercised through their own entry points and answered by the wrapping forms of the C04/C05/C08 models; '
+             'SfxProps/C18Entry.lean (from_num_fixed, from_num_float, from_str) restates what is proved about those forms in C18\'s terms.',
         design_ref='7/C18', note=COMMON_NOTE, technique='Lean 4 proof (induction over programs) over executable model + differential correspondence'),
     'C04': dict(
         text='Theorem SfxProps.C04.holds (full strength): for EVERY ordered pair of valid layouts (integers = zero-fraction layouts) and every source value the '
@@ -119,13 +120,14 @@ CLAIMED = {
              'The mpmath oracle still judges the implementation\'s answers on every run (worst observed 0.43 of the bound) as the search for failing inputs when the correspondence breaks.',
         design_ref='7/C14', note=COMMON_NOTE, technique='Lean 4 proof (integer trace + potential-function argument over the reals) + differential correspondence + mpmath search oracle'),
     'C15': dict(
-        text='PARTIAL + KNOWN FINDING, with both sides proved. SfxProps/C15Acc.lean: statement_false proves NOT C15_statement by a formal counterexample (exp::<I32F32>(20.0): the model returns '
-             '481239358.98 by kernel evaluation while e^20 > 485165190 from Real.exp_one_gt_d9; allowed error ~463) — this is known finding D10 (ids D10-exp, D10-pow; predicate: omitted series tail '
-             '> 2^-24 e^x), replayed against the implementation on every run; exp_holds_le_four proves the exp clause word for word for every supported type and |x| <= 4. '
-             'SfxProps/C15.lean: C15_partial proves the whole powi clause (exact rational bound (n-1) ulp * max(1,|x|)^(n-1) for n >= 2, truncated reciprocal for n < 0) and the conventions 0^y, x^0, x^1 '
-             'of pow and powi; totality is C12. NOT proved: the pow error bound, exp for 4 < |x| inside the validity region; any oracle-judged failure outside the finding\'s region is a VIOLATION.',
-        design_ref='7/C15', note=COMMON_NOTE + ' exp for 4 < |x| < ~11.8 and pow rest on sampled oracle judgements.',
-        technique='Lean 4 proof (partial; formal counterexample for the finding) + differential correspondence + mpmath search oracle + known-findings file'),
+        text='PARTIAL + TWO KNOWN FINDINGS, each side proved. SfxProps/C15Acc.lean over the reals: (exp) statement_false: NOT C15_statement by a formal counterexample exp::<I32F32>(20.0) (kernel-evaluated '
+             'result 481239358.98, e^20 > 485165190) = finding D10 (truncated series, ids D10-exp/D10-pow, predicate: omitted tail > 2^-24 e^x); exp_holds_wide: the exp clause word for word for every supported '
+             'type and |x| <= f/4 (every non-overflowing I9F23 operand; 8 of ~11.8 for I32F32; 22 of ~27 for I40F88). (pow) pow_holds_small: the pow clause for |y ln x| <= 7/2 and |y| <= 2^f/32 (every '
+             'exponent of types with intBits + 4 <= f); pow_clause_false: the pow clause fails independently of exp at pow::<I41F23>(1+2^-23, -2^26) = 1.0 (true value < 1/1000) = NEW finding D16 '
+             '(ln\'s absolute 8-ulp error times |y|; id D16-pow-ln-abs, predicate 8|y| ulp > 1), confirmed on the implementation and replayed on every run. SfxProps/C15.lean: C15_partial proves the whole powi '
+             'clause and the conventions 0^y, x^0, x^1. NOT proved: the thin bands f/4 < |x| < D10 threshold and 7/2 < |y ln x|; any oracle-judged failure outside the findings\' regions is a VIOLATION.',
+        design_ref='7/C15', note=COMMON_NOTE + ' The bands between the proved regions and the findings\' regions rest on sampled oracle judgements.',
+        technique='Lean 4 proof (partial; formal counterexamples for both findings) + differential correspondence + mpmath search oracle + known-findings file'),
     'C16': dict(
         text='FULL. Theorem SfxProps.C16.holds (= C16_statement, SfxProps/C16Acc.lean) over Mathlib\'s reals for every supported signed type and operand: sin/cos within 2^-16 for |x| <= 200 (proved budget '
              '104.65/105.29 of 128 units of 2^-23) and within [-1-2^-16, 1+2^-16]; tan within (1+tan^2 x)/2^14 for |x| <= 100, |tan x| <= 64. Nothing assumed: each arctan table entry (regenerated from the '
@@ -408,7 +410,8 @@ CLAIMED = {
              'equals the documented run (exact result reduced mod 2^n at each step, shift amounts reduced mod the width, panic only for a zero divisor) and is identical '
              'under both build profiles; built on the C01/C02/C06/C07 theorems. Correspondence: programs of 1..12 steps over every impl variant (by value / by reference / '
              'assigning, 12 shift-amount types, integer right-hand sides, sum/product) in both profiles; Wrapping::from_num (fixed, 12 integer types, bool, f32/f64), Wrapping::to_num and '
-             'Wrapping::from_str / from_str_binary/_octal/_hex are exercised through their own entry points and answered by the wrapping forms of the C04/C05/C08 models (proved there).',
+             'Wrapping::from_str / from_str_binary/_octal/_hex are exercised through their own entry points and answered by the wrapping forms of the C04/C05/C08 models; '
+             'SfxProps/C18Entry.lean (from_num_fixed, from_num_float, from_str) restates what is proved about those forms in C18\'s terms.',
         design_ref='7/C18', note=COMMON_NOTE, technique='Lean 4 proof (induction over programs) over executable model + differential correspondence'),
     'C04': dict(
         text='Theorem SfxProps.C04.holds (full strength): for EVERY ordered pair of valid layouts (integers = zero-fraction layouts) and every source value the '
